@@ -45,7 +45,10 @@ type Node struct {
 	Mux      *env.Mux
 	Srv      *Server
 	Modified int
-	conf     *filtering.Config
+	// OnModified, if set, is called whenever the module asks for the
+	// configuration to be written out (after Modified has been counted).
+	OnModified func()
+	conf       *filtering.Config
 }
 
 func toYAML(l []ListConf) []filtering.FilterYAML {
@@ -84,8 +87,13 @@ func Open(opt Options, srv *Server) (*Node, error) {
 		BlockingMode:               filtering.BlockingModeDefault,
 		HTTPClient:                 &http.Client{Transport: srv, Timeout: opt.ClientTimeout},
 		HTTPRegister:               n.Mux.Register,
-		ConfigModified:             func() { n.Modified++ },
-		ApplyClientFiltering:       func(string, netip.Addr, *filtering.Settings) {},
+		ConfigModified: func() {
+			n.Modified++
+			if n.OnModified != nil {
+				n.OnModified()
+			}
+		},
+		ApplyClientFiltering: func(string, netip.Addr, *filtering.Settings) {},
 	}
 	f, err := filtering.New(n.conf, nil)
 	if err != nil {
